@@ -8,5 +8,6 @@ for pm in "$@"; do
   echo "######## ${p}_$w $m"
   extra=""
   case $p in C18) extra="C02";; C05) extra="C04 C08";; C06) extra="C04";; C12) extra="C02 C11";; C01) extra="C04 C07 C11 C02";; C15) extra="C16 C12";; C16) extra="C15";; C14) extra="C07 C10 C09";; C13) extra="C02 C09 C12";; C08) extra="C09 C10";; C03) extra="C02 C18";; C17) extra="C02";; C11) extra="C12";; C10) extra="C08";; C04) extra="C05";; C07) extra="C14";; esac
+  [ -n "$NOEXTRA" ] && extra=""; [ -n "$ONLY" ] && { tools/try_mutant.sh $ONLY /tmp/mutants_${p}_$w/$m; continue; }
   tools/try_mutant.sh $p /tmp/mutants_${p}_$w/$m $extra
 done
